@@ -116,6 +116,8 @@ func (db *DB) Merge() error {
 			if pos != nil && pos.Fid == dataFile.ID &&
 				pos.Offset == logRecordPos.Offset && pos.BlockID == logRecordPos.BlockID {
 				// 将数据重写到 merge 临时目录中
+				// 重写后的记录不再有对应的批处理完成标识, 必须作为普通记录写入
+				logRecord.BatchID = 0
 				pos, err := mergeDB.appendLogRecord(logRecord)
 				if err != nil {
 					return err
